@@ -158,15 +158,18 @@ theorem iterScript_wf (f : Nat) : ∀ (s : Bytes) (ops : List Elem), iterScript 
             · exact ih rest r hr e he
         · simp only [hz, if_false] at h
           by_cases h1 : rest.length < lb
-          · simp [h1] at h
-          · simp only [h1, if_false] at h
+          · rw [if_pos h1] at h; cases h
+          · rw [if_neg h1] at h
             by_cases h2 : (List.drop lb rest).length < n
-            · simp [h2] at h
-            · simp only [h2, if_false] at h
+            · rw [if_pos h2] at h; cases h
+            · rw [if_neg h2] at h
               cases hr : iterScript f (List.drop n (List.drop lb rest)) with
-              | none => simp [hr] at h
+              | none => rw [hr] at h; cases h
               | some r =>
-                simp [hr] at h; subst h
+                rw [hr] at h
+                simp only [Option.map] at h
+                injection h with h
+                subst h
                 intro e he
                 rcases List.mem_cons.mp he with rfl | he
                 · show (List.take n (List.drop lb rest)).length < 2 ^ 32
